@@ -1,0 +1,63 @@
+//go:build verif
+
+package linux
+
+// Exports for the verification harness of property C05 (see /verif/FRAMEWORK.md).
+// Add-only; compiled only with -tags verif.
+
+// VerifNormalizeIPTables runs normalizeIPTables on a copy of pairs.
+func VerifNormalizeIPTables(pairs map[string]string) map[string]string {
+	m := make(map[string]string, len(pairs))
+	for k, v := range pairs {
+		m[k] = v
+	}
+	normalizeIPTables(m)
+	return m
+}
+
+// VerifRoute is the exported view of a parsed route.
+type VerifRoute struct {
+	IP     string
+	Prefix int
+	Hop    string
+	Orig   string
+}
+
+// VerifDiffRoutes parses both line lists with parseRoutes and returns diffRoutes' script.
+// An Abort of the parser propagates as the usual bailout panic.
+func VerifDiffRoutes(a, b []string) []string {
+	return diffRoutes(parseRoutes(a), parseRoutes(b))
+}
+
+// VerifParseRoutes returns what parseRoutes makes of the lines.
+func VerifParseRoutes(lines []string) []VerifRoute {
+	var res []VerifRoute
+	for _, r := range parseRoutes(lines) {
+		res = append(res, VerifRoute{r.ip, r.prefix, r.hop, r.orig})
+	}
+	return res
+}
+
+// VerifRulePairs parses a ruleset and returns, per table and chain, the normalised option maps.
+func VerifRulePairs(lines []string) map[string]map[string][]map[string]string {
+	s := &State{}
+	tb := s.parseIPTables(lines)
+	res := make(map[string]map[string][]map[string]string)
+	for tName, chains := range tb {
+		res[tName] = make(map[string][]map[string]string)
+		for cName, ch := range chains {
+			l := []map[string]string{}
+			for _, r := range ch.rules {
+				l = append(l, r.pairs)
+			}
+			res[tName][cName] = l
+		}
+	}
+	return res
+}
+
+// VerifDiffIPTables compares two rulesets given as lines.
+func VerifDiffIPTables(a, b []string) string {
+	s := &State{}
+	return diffIPTables(s.parseIPTables(a), s.parseIPTables(b))
+}
